@@ -448,9 +448,9 @@ namespace {
          };
          for (auto& f : fams) {
             opt.kick();
-            for (int i = 0; i < N; ++i) { (void) f.make(order(ins_order, i)); rep.count("transitions"); }
+            // the node returned by the FIRST request for each key is what every later request must return
             std::vector<const void*> canon(N);
-            for (int i = 0; i < N; ++i) canon[i] = f.make(i);
+            for (int i = 0; i < N; ++i) { canon[order(ins_order, i)] = f.make(order(ins_order, i)); rep.count("transitions"); }
             std::unordered_map<const void*, int> seen;
             bool bad = false;
             auto witness = vf::JObj{}.str("pass", "C04").num("mode", mode).num("breadth", 2).num("long", N).num("ins_order", ins_order).raw("ops", "[]").done();
